@@ -26,6 +26,7 @@ tests/nix-files/pkgs/trl-default.nix) or to an RFC 0166 paragraph:
   `let … in` block before the body                 trl-default.nix
   chains of 2-4 directly nested let blocks         docs/cli.md ("Update an outer scope binding": let/in/let/in/body)
   `k =` / let block / `in` / call as a binding value   RFC 0166 "let" (a let as binding value starts on the next line, body after `in` at the let's indentation)
+  comment-only list (own line / let body / list element / `then` branch)   RFC 0166 "lists" (a list holding only a comment is multi-line, `[` at the indentation of its line)
   non-ASCII text in comments and string values      the property's "whatever the ... literal values"; layout identical to ASCII
   bodies: set, `f { … }`, `f rec { … }`            test_function_calls_function / _recursive_function
 """
@@ -121,10 +122,28 @@ def m_istr(i, n):
     return [f"{IND*i}t{n} = ''", f"{IND*(i+1)}echo hi", f"{IND*(i+1)}make install", f"{IND*i}'';"]
 
 
+def m_commentlist(i, n):
+    return [f"{IND*i}p{n} = [", f"{IND*(i+1)}# nothing yet", f"{IND*i}];"]
+
+
+def m_letcommentlist(i, n):
+    # a comment-only list that starts its own line (body of a let used as binding value)
+    return [f"{IND*i}v{n} =", f"{IND*(i+1)}let", f"{IND*(i+2)}r = {n};", f"{IND*(i+1)}in", f"{IND*(i+1)}[", f"{IND*(i+2)}# nothing yet", f"{IND*(i+1)}];"]
+
+
+def m_listinlist(i, n):
+    return [f"{IND*i}o{n} = [", f"{IND*(i+1)}[", f"{IND*(i+2)}# nothing yet", f"{IND*(i+1)}]", f"{IND*(i+1)}x", f"{IND*i}];"]
+
+
+def m_ifml(i, n):
+    return [f"{IND*i}w{n} =", f"{IND*(i+1)}if stdenv.isLinux then", f"{IND*(i+2)}[", f"{IND*(i+3)}# nothing yet", f"{IND*(i+2)}]", f"{IND*(i+1)}else", f"{IND*(i+2)}b;"]
+
+
 MEMBERS = {
     "scalar": m_scalar, "string": m_string, "bool": m_bool, "select": m_select, "list1": m_list1, "mllist": m_mllist,
     "nested": m_nested, "call": m_call, "with": m_with, "attrpath": m_attrpath, "inherit": m_inherit,
     "inherit_from": m_inherit_from, "empty": m_empty, "emptylist": m_emptylist, "if": m_if, "istr": m_istr, "utf8": m_utf8, "letcall": m_letcall,
+    "commentlist": m_commentlist, "letcommentlist": m_letcommentlist, "listinlist": m_listinlist, "ifml": m_ifml,
 }
 # decorations attach to a member position: (kind, position)
 DECOS = ["own_comment", "blank", "eol_comment", "block_comment", "blank_own_comment"]
